@@ -154,6 +154,18 @@ def check_tree(case):
     w = {"case": repr(case)}
     roles = mk_roles()
     B = build_bundle(tree, roles, [0])
+    if role and how in ("func", "func2", "ctor+func"):
+        # the instance's role given as an EQUAL role that is another object (a copy, a role of a second RoleSet made from
+        # the same names): roles are what they are called
+        import copy as _copy
+        other = mk_roles()
+        role_obj = _copy.copy(getattr(roles, role)) if how == "func" else getattr(other, role)
+        B0 = B
+
+        def B(**kw):
+            if kw.get("role") is not None:
+                kw["role"] = role_obj
+            return B0(**kw)
     bi = B(port=port, role=getattr(roles, role) if role else None, flipped=(flipped and how == "ctor"))
     if flipped and how == "func":
         bi = h.flipped(bi)
